@@ -271,29 +271,32 @@ def inplace_overwrite(ctx, rng):
     }
     for lname, mk in layouts.items():
         for which in ("both", "forces only"):
-            for orders, compact in (((2,), True), ((2, 3), False)):
+            # the second solve asks for the same layout or for the other one (R14-K4: a shortcut keyed on the identity of the
+            # array objects that re-expands stored coefficients when only the layout flag changed)
+            for orders, compact, compact2 in (((2,), True, True), ((2, 3), False, False), ((2, 3), True, False), ((2, 3), False, True),
+                                              ((2,), False, True), ((3,), True, False)):
                 dbuf, fbuf = mk(d1.copy()), mk(f1.copy())
                 o = Symfc(P.atoms, displacements=dbuf, forces=fbuf)
                 o.basis_set = dict(P.basis)
-                ctx.case({"inplace_overwrite": lname, "arrays": which, "orders": list(orders), "compact": compact}, nontrivial=True)
+                ctx.case({"inplace_overwrite": lname, "arrays": which, "orders": list(orders), "compact": compact, "compact_second": compact2}, nontrivial=True)
                 ctx.count("inplace-overwrite")
                 try:
                     o.solve(orders=list(orders), is_compact_fc=compact)
                     fbuf[...] = f2
                     if which == "both":
                         dbuf[...] = d2
-                    o.solve(orders=list(orders), is_compact_fc=compact)
+                    o.solve(orders=list(orders), is_compact_fc=compact2)
                     fresh = Symfc(P.atoms, displacements=dbuf, forces=fbuf)
                     fresh.basis_set = dict(P.basis)
-                    fresh.solve(orders=list(orders), is_compact_fc=compact)
+                    fresh.solve(orders=list(orders), is_compact_fc=compact2)
                 except np.linalg.LinAlgError:
                     ctx.count("skipped-singular")
                     continue
                 for k in orders:
                     a, b = np.asarray(o.force_constants[k]), np.asarray(fresh.force_constants[k])
                     if a.shape != b.shape or not np.abs(a - b).max() <= 1e-9 * max(np.abs(b).max(), 1e-300):
-                        ctx.fail("oracle", "C12/oracle/inplace-overwrite", f"{lname} dataset given to the constructor, {which} overwritten in place by the caller, orders {orders}: the second solve of the reused object differs from a fresh object on the same arrays (fc{k})",
-                                 replay={**P.describe(), "layout": lname, "arrays": which, "orders": list(orders), "compact": compact}, has_input=True)
+                        ctx.fail("oracle", "C12/oracle/inplace-overwrite", f"{lname} dataset given to the constructor, {which} overwritten in place by the caller, orders {orders}, is_compact_fc {compact} then {compact2}: the second solve of the reused object differs from a fresh object on the same arrays (fc{k})",
+                                 replay={**P.describe(), "layout": lname, "arrays": which, "orders": list(orders), "compact": compact, "compact_second": compact2}, has_input=True)
                         break
 
 
